@@ -86,22 +86,26 @@ THEOREM = re.compile(r"^(?:@\[[^\]]*\]\s*)?(?:protected\s+|private\s+)?theorem\s
 
 
 def theorems_of(pid: str):
-    """Theorem names (fully qualified) declared in Props/<pid>.lean, with their line numbers."""
-    path = os.path.join(LEAN, "SV", "Props", pid + ".lean")
-    src = open(path, encoding="utf-8").read()
-    ns = re.search(r"^namespace\s+(\S+)", src, re.M)
-    prefix = (ns.group(1) + ".") if ns else ""
+    """Theorem names (fully qualified) declared in Props/<pid>*.lean, with file and line."""
+    import glob
     out = []
-    for m in THEOREM.finditer(src):
-        line = src.count("\n", 0, m.start()) + 1
-        out.append((prefix + m.group(1), line))
-    return out, path
+    main = os.path.join(LEAN, "SV", "Props", pid + ".lean")
+    files = sorted(glob.glob(os.path.join(LEAN, "SV", "Props", pid + "*.lean")))
+    for path in files:
+        src = open(path, encoding="utf-8").read()
+        ns = re.search(r"^namespace\s+(\S+)", src, re.M)
+        prefix = (ns.group(1) + ".") if ns else ""
+        for m in THEOREM.finditer(src):
+            line = src.count("\n", 0, m.start()) + 1
+            out.append((prefix + m.group(1), line, path))
+    return out, main
 
 
 def build_and_audit(pid: str):
     """lake build Props/<pid> (+ driver); #print axioms for each theorem.
     -> dict(obligations, discharged, failed: {name: reason}, axioms: {name: [..]}, log)"""
-    thms, path = theorems_of(pid)
+    thms3, path = theorems_of(pid)
+    thms = [(n, l) for n, l, _ in thms3]
     res = {"obligations": len(thms), "discharged": 0, "failed": {}, "axioms": {}, "log": "",
            "driver_ok": True}
     rc, out = sh(["lake", "build", "driver"], cwd=LEAN, timeout=3600)
@@ -111,21 +115,20 @@ def build_and_audit(pid: str):
     rc, out = sh(["lake", "build", f"SV.Props.{pid}"], cwd=LEAN, timeout=7200)
     if rc != 0:
         res["log"] += out[-6000:]
-        # map compiler errors of the Props file (or of a dependency) to theorems
-        rel = os.path.relpath(path, LEAN)
-        err_lines = [int(m.group(1)) for m in re.finditer(re.escape(rel) + r":(\d+):\d+", out)
-                     if "error" in out[max(0, m.start() - 10):m.start()]]
-        if not err_lines:
-            for name, _ in thms:
-                res["failed"][name] = "a module this file imports does not build"
-            return res
-        for name, line in thms:
-            nxt = min([l for _, l in thms if l > line] + [10 ** 9])
-            if any(line <= e < nxt for e in err_lines):
+        # map compiler errors to the theorems of the files of this property
+        hit = False
+        for name, line, fpath in thms3:
+            rel = os.path.relpath(fpath, LEAN)
+            errs = [int(m.group(1)) for m in re.finditer(r"error: " + re.escape(rel) + r":(\d+):\d+", out)]
+            if errs:
+                hit = True
+            nxt = min([l for _, l, f in thms3 if f == fpath and l > line] + [10 ** 9])
+            if any(line <= e < nxt for e in errs):
                 res["failed"][name] = "proof does not check"
-        # the other theorems of the file cannot be audited without an .olean; re-check them alone
         for name, _ in thms:
-            res["failed"].setdefault(name, "file does not build; theorem not audited")
+            res["failed"].setdefault(
+                name, "file does not build; theorem not audited" if hit
+                else "a module this file imports does not build")
         return res
     audit_dir = os.path.join(LEAN, "SV", "Audit")
     os.makedirs(audit_dir, exist_ok=True)
